@@ -9,6 +9,9 @@ spec -> code: every distinct abstract state of Actor.tla within the constants is
               flow.Actor subclass, @wrap.Actor.apply, @wrap.Actor.train/.apply, wrap.Actor.type with method names /
               callables / as decorator, an actor with its own set_state) through the actor API and through
               flow.Functor.preset_state/preset_params; apply is symbolic so the observation is the term TLC expects.
+              The two sorts Actor.tla leaves uninterpreted are concretised in more than one way: the hyper-parameter
+              VALUES (plain numbers / None, '', () - see REPS) and the state OBJECT of a decorated pair (the event list /
+              a number, the Tally of the events exported by TLC, which is 0 = falsy for some trained models).
               Through flow.Functor the behaviours also say WHICH functor object executes an instance (the carrier chosen
               by Build: a new one or a live one holding the same builder): functor objects are created once, executed
               for every instance / rebuild assigned to them and pickled by the `pickle` calls - a functor has no memory
@@ -36,6 +39,45 @@ ABSENT = 99
 KEYS = ('a', 'b')
 F_NEEDY = 'class-actor-unpickle-required-ctor-args'
 F_PLAIN = 'class-actor-without-mapping-keyerror'
+
+# ------------------------------------------------------------------------------------------------------------------
+# concretisation of the hyper-parameter VALUES.  Actor.tla leaves the values uninterpreted (0 = the constructor default,
+# 1..MaxV = explicit values, all it uses is their equality), so every explicit abstract value may be represented by any
+# python value as long as the representatives stay pairwise distinct: besides the plain numbers the replays use the
+# values user code hands over all the time that are easy to mistake for "nothing supplied" - None, '' and () (all falsy,
+# None being the usual spelling of "no limit" overriding a non-None default).  The representation is chosen per
+# behaviour / recorded trace (CODEC); the projection back (dec) does not depend on that choice.
+# ------------------------------------------------------------------------------------------------------------------
+REPS = ({}, {1: None, 2: '', 3: ()})
+CODEC = 0
+
+
+def set_codec(n):
+    global CODEC  # pylint: disable=global-statement
+    CODEC = n % len(REPS)
+
+
+def enc(v):
+    """abstract explicit value -> its python representative under the codec in force"""
+    return REPS[CODEC].get(v, v)
+
+
+def dec(x):
+    """python value seen in kwargs / get_params / an apply term -> abstract value"""
+    if x is None:
+        return 1
+    if isinstance(x, str) and x == '':
+        return 2
+    if isinstance(x, tuple) and x == ():
+        return 3
+    return x
+
+
+def weight(a, b, features, labels):
+    """what one training event adds to the running sum of the tally flavour (Actor.tla: Weight)"""
+    if features[0] != 'x' or labels != ('y', features[1]):
+        return 1000
+    return features[1] - 1 + dec(a) + 2 * dec(b)
 
 
 # ------------------------------------------------------------------------------------------------------------------
@@ -150,6 +192,20 @@ def PairSym(state, features, *, a=0, b=0):  # pylint: disable=invalid-name,funct
     return _term(a, b, state, features)
 
 
+@wrap.Actor.train
+def TallySym(state, features, labels, *, a=0, b=0):  # pylint: disable=invalid-name
+    """Train half of a decorated pair whose state is a NUMBER, the running sum of the event weights: the state object of
+    a trained actor is whatever the user function returns - here one that may well be 0 (any falsy object would do:
+    a learned offset of exactly zero, an empty vocabulary...); only None means untrained."""
+    return (0 if state is None else state) + weight(a, b, features, labels)
+
+
+@TallySym.apply
+def TallySym(state, features, *, a=0, b=0):  # pylint: disable=invalid-name,function-redefined
+    """Apply half: the model is visible as its sum only (Actor.tla exports the expected Tally of every instance)."""
+    return 'app', (a, b), ('sum', state), features
+
+
 @wrap.Actor.apply
 def ApplySym(features, *, a=0, b=0):  # pylint: disable=invalid-name
     """Decorated stateless function."""
@@ -261,8 +317,9 @@ class ClassPlain:
 
 
 class Flavour:
-    def __init__(self, name, actor, stateful, modes, std=False, needs_a=False, sat_every=1):
+    def __init__(self, name, actor, stateful, modes, std=False, needs_a=False, sat_every=1, tally=False):
         self.name, self.actor, self.stateful, self.modes, self.std, self.needs_a = name, actor, stateful, modes, std, needs_a
+        self.tally = tally  # apply shows the Tally of the model instead of the model
         self.sat_every = sat_every  # the saturated mode runs on every n-th behaviour only (cloudpickle by value is slow)
 
 
@@ -274,6 +331,7 @@ FLAVOURS = {
         # copyreg reducer carries a local lambda only cloudpickle - the serialiser forml uses everywhere - can handle)
         Flavour('native', NativeSym, True, ALL, std=True),
         Flavour('pair', PairSym, True, ALL, std=True),
+        Flavour('pair-tally', TallySym, True, ALL, std=True, tally=True, sat_every=4),
         Flavour('class-name', ClassByName, True, ALL, sat_every=16),
         Flavour('class-call', ClassByCall, True, ALL, sat_every=16),
         Flavour('class-deco', ClassDeco, True, ALL, sat_every=4),
@@ -297,31 +355,34 @@ CHECKED = [n for n in FLAVOURS if n not in SELFTEST]
 # ------------------------------------------------------------------------------------------------------------------
 def kw(p):
     """abstract partial assignment [a, b] (99 = not supplied) -> keyword arguments"""
-    return {k: v for k, v in zip(KEYS, p) if v != ABSENT}
+    return {k: enc(v) for k, v in zip(KEYS, p) if v != ABSENT}
 
 
 def partial(kwargs):
     extra = set(kwargs) - set(KEYS)
-    return [kwargs.get(k, ABSENT) for k in KEYS] + sorted(extra)
+    return [dec(kwargs[k]) if k in kwargs else ABSENT for k in KEYS] + sorted(extra)
 
 
 def resolved(params):
     """params reported by get_params -> total assignment (a key that is not reported runs on its default 0)"""
     extra = set(params) - set(KEYS)
-    return [params.get(k, 0) for k in KEYS] + sorted(extra)
+    return [dec(params.get(k, 0)) for k in KEYS] + sorted(extra)
 
 
 def project_term(term, x):
-    """('app', (a, b), model, x) -> [params, [[p, d]...], d]; anything malformed is made unequal to every expectation"""
+    """('app', (a, b), model, x) -> [params, [[p, d]...], d]; anything malformed is made unequal to every expectation
+    (tally flavour: model = ('sum', n) -> ['sum', n])"""
     try:
         tag, (a, b), model, echo = term
         if tag != 'app' or echo != x:
             return ['malformed', repr(term)[:200]]
+        if isinstance(model, tuple) and len(model) == 2 and model[0] == 'sum':
+            return [[dec(a), dec(b)], ['sum', model[1]], x[1]]
         events = []
         for (pa, pb), fx, fy in model:
             d = fx[1] if (fx[0] == 'x' and fy == ('y', fx[1])) else -1
-            events.append([[pa, pb], d])
-        return [[a, b], events, x[1]]
+            events.append([[dec(pa), dec(pb)], d])
+        return [[dec(a), dec(b)], events, x[1]]
     except (TypeError, ValueError, IndexError):
         return ['malformed', repr(term)[:200]]
 
@@ -482,7 +543,7 @@ class ViaFunctor:
         for c in sorted({r[0] for r in self.inst if r is not None and isinstance(r[0], int)}):
             held = dict(self.carriers[c]['builder'].kwargs)
             if set(have) <= set(held) <= set(KEYS):  # an override can set any key but not drop one
-                out.append((c, [held[k] if k in held and have.get(k, ABSENT) != held[k] else ABSENT for k in KEYS]))
+                out.append((c, [dec(held[k]) if k in held and have.get(k, ABSENT) != held[k] else ABSENT for k in KEYS]))
         return out
 
     def _carrier(self, builder, c):
@@ -601,13 +662,23 @@ def known_finding(flav, mode, h, step, op):
     return None
 
 
+def expected_inst(flav, beh):
+    """the observation Actor.tla expects of every instance: [built, params, model], the tally flavour shows the Tally of
+    the model TLC exported along (a trained model whose Tally is 0 is still a trained model)"""
+    if not flav.tally:
+        return beh[1]
+    return [[built, params, ['sum', tally] if model else []] for (built, params, model), tally in zip(beh[1], beh[3])]
+
+
 def replay_one(flav, mode, beh, data):
-    """Replay one exported behaviour [h, expected inst, expected builder] -> None | failure dict"""
-    h, exp_inst, exp_bld = beh
+    """Replay one exported behaviour [h, expected inst, expected builder, expected tallies] -> None | failure dict"""
+    h, exp_inst, exp_bld = beh[0], expected_inst(flav, beh), beh[2]
     step, op, machine = 0, 'init', None
     try:
+        salt = zlib.crc32(json.dumps(h).encode())
+        set_codec(salt >> 4)  # representation of the hyper-parameter values in this behaviour
         machine = MODES[mode](flav, h[0][4], len(exp_inst))
-        machine.salt = zlib.crc32(json.dumps(h).encode())
+        machine.salt = salt
         for step, (op, i, j, d, p) in enumerate(h[1:], start=1):
             empty = machine.call(op, i, j, d, p)
             if op == 'getstate' and not flav.stateful and not empty:
@@ -686,7 +757,7 @@ def _chunk(args):
                 key = (name, mode, fail['op'])
                 counts[key] = counts.get(key, 0) + 1
                 if counts[key] <= CAP:
-                    fail.update(flavour=name, mode=mode, h=beh[0], expected=beh[1], bld=beh[2])
+                    fail.update(flavour=name, mode=mode, h=beh[0], expected=beh[1], bld=beh[2], tally=beh[3])
                     failures.append(fail)
         if want_dumps and n % want_dumps == 0:
             for name in names:
@@ -694,6 +765,7 @@ def _chunk(args):
                 if name in ('class-plain', 'class-needy') or 'direct' not in flav.modes:
                     continue
                 try:
+                    set_codec(n // want_dumps)
                     machine = Direct(flav, beh[0][0][4], len(beh[1]))
                     for op, i, j, d, p in beh[0][1:]:
                         machine.call(op, i, j, d, p)
@@ -733,9 +805,10 @@ def report(chk, failures):
     for fail in failures:
         flav = FLAVOURS[fail['flavour']]
         finding = known_finding(flav, fail['mode'], fail['h'], fail['step'], fail['op'])
+        set_codec(zlib.crc32(json.dumps(fail['h']).encode()) >> 4)  # show the values the replay used (see replay_one)
         chk.fail(f'{fail["flavour"]}/{fail["mode"]} after {show(fail["h"][:fail["step"] + 1], fail["mode"] == "functor")}: {fail["what"]}',
                  {'kind': 'behaviour', 'flavour': fail['flavour'], 'mode': fail['mode'],
-                  'behaviour': [fail['h'], fail['expected'], fail['bld']], 'what': fail['what']}, finding=finding)
+                  'behaviour': [fail['h'], fail['expected'], fail['bld'], fail['tally']], 'what': fail['what']}, finding=finding)
 
 
 # ------------------------------------------------------------------------------------------------------------------
@@ -900,7 +973,7 @@ def fresh_check(chk, dumps):
         raise tlc.MachineryError('fresh process returned a different number of observations')
     ok = 0
     for (name, beh, _), got in zip(dumps, results):
-        want = {'inst': beh[1], 'bld': beh[2], 'stateful': FLAVOURS[name].stateful}
+        want = {'inst': expected_inst(FLAVOURS[name], beh), 'bld': beh[2], 'stateful': FLAVOURS[name].stateful}
         if got != want:
             chk.fail(f'{name}: (builder, instances) after {show(beh[0])} unpickled in a fresh interpreter show {got}, '
                      f'the contract demands {want}', {'kind': 'fresh', 'flavour': name, 'mode': 'direct', 'behaviour': beh})
@@ -909,7 +982,7 @@ def fresh_check(chk, dumps):
     # binding self-test of this comparison
     name, beh, _ = dumps[0]
     chk.selftest('fresh_process_comparison_detects_a_changed_param',
-                 {'inst': [[b, [p[0] + 1] + p[1:], m] for b, p, m in beh[1]], 'bld': beh[2],
+                 {'inst': [[b, [p[0] + 1] + p[1:], m] for b, p, m in expected_inst(FLAVOURS[name], beh)], 'bld': beh[2],
                   'stateful': FLAVOURS[name].stateful} != results[0])
     chk.validated(ok)
     chk.extra['fresh_process_unpickled'] = ok
@@ -935,19 +1008,32 @@ def fresh_main(path):
 
 # ------------------------------------------------------------------------------------------------------------------
 TRACE_NI = 3
-NOOUT = {'p': [0, 0], 'm': [], 'x': 0}
+NOOUT = {'p': [0, 0], 'm': [], 'x': 0, 'tally': 0}
 NOP = [ABSENT] * len(KEYS)
 
 
+def _tally(model):
+    """tally flavour: what an instance shows of its model -> (trained, sum); anything else is made unequal to every expectation"""
+    if model == []:
+        return False, 0
+    if isinstance(model, list) and len(model) == 2 and model[0] == 'sum' and isinstance(model[1], int) and abs(model[1]) < 10 ** 6:
+        return True, model[1]
+    return True, -1
+
+
 def _events(model):
+    if model[:1] == ['sum']:
+        return []  # tally flavour: judged by (trained, tally), see TraceActor.tla
     ok = all(isinstance(e, list) and len(e) == 2 and isinstance(e[0], list) and isinstance(e[1], int) for e in model)
     return [{'p': e[0], 'd': e[1]} for e in model] if ok else [{'p': [-1, -1], 'd': -1}]
 
 
-def record_trace(flav, mode, rnd, length, script=None, p0=None):
+def record_trace(flav, mode, rnd, length, script=None, p0=None, codec=None):
     """Drive the real flavour with random enabled calls (or a fixed script); log every call with the projection of
     the real objects after it."""
     vals = (0, 1, 2, 3)
+    codec = rnd.randrange(len(REPS)) if codec is None else codec
+    set_codec(codec)
 
     def rnd_partial(allow_empty=False):
         while True:
@@ -1004,19 +1090,20 @@ def record_trace(flav, mode, rnd, length, script=None, p0=None):
         try:
             got = machine.call(op, i, j, d, p)
             if op == 'apply':
-                ev['out'] = {'p': got[0], 'm': _events(got[1]), 'x': got[2]} if got[0] != 'malformed' else {'p': [-1, -1], 'm': [], 'x': 0}
+                ev['out'] = ({'p': got[0], 'm': _events(got[1]), 'x': got[2], 'tally': _tally(got[1])[1]} if got[0] != 'malformed'
+                             else {'p': [-1, -1], 'm': [], 'x': 0, 'tally': -1})
             elif op == 'getstate':
                 ev['empty'] = bool(got)
             obs = machine.observe(data)
             flags = machine.stateful()
             ev['bld'] = machine.kwargs()
-            ev['inst'] = [{'built': o[0], 'params': o[1], 'model': _events(o[2]),
+            ev['inst'] = [{'built': o[0], 'params': o[1], 'model': _events(o[2]), 'trained': _tally(o[2])[0], 'tally': _tally(o[2])[1],
                            'stateful': (int(f[0]) if f[0] == f[1] else -1) if f else 0} for o, f in zip(obs, flags)]
         except tlc.MachineryError:
             raise
         except Exception as exc:  # pylint: disable=broad-except
             ev.update(res=type(exc).__name__, bld=NOP, what=str(exc)[:120],
-                      inst=[{'built': False, 'params': [0, 0], 'model': [], 'stateful': 0}] * TRACE_NI)
+                      inst=[{'built': False, 'params': [0, 0], 'model': [], 'stateful': 0, 'trained': False, 'tally': 0}] * TRACE_NI)
             events.append(ev)
             break
         events.append(ev)
@@ -1028,7 +1115,7 @@ def record_trace(flav, mode, rnd, length, script=None, p0=None):
             snapt[i - 1] = trained[i - 1]
         elif op == 'setstate':
             trained[i - 1] = snapt[j - 1]
-    return {'ht': flav.stateful, 'bld': list(p0), 'ev': events}
+    return {'ht': flav.stateful, 'bld': list(p0), 'ev': events, 'codec': codec, 'tally': flav.tally}
 
 
 LEAK_SCRIPT = [('build', 1, 0, 0, NOP), ('train', 1, 0, 1, NOP), ('getstate', 1, 0, 0, NOP), ('update', 0, 0, 0, [2, ABSENT]),
@@ -1038,10 +1125,10 @@ LEAK_SCRIPT = [('build', 1, 0, 0, NOP), ('train', 1, 0, 1, NOP), ('getstate', 1,
 def reference_trace():
     """The conforming trace of LEAK_SCRIPT from builder(a=1), written by hand (no forml code involved)."""
     ev1 = {'p': [1, 0], 'd': 1}
-    none = {'built': False, 'params': [0, 0], 'model': [], 'stateful': 0}
+    none = {'built': False, 'params': [0, 0], 'model': [], 'stateful': 0, 'trained': False, 'tally': 0}
 
-    def inst(params, model):
-        return {'built': True, 'params': params, 'model': model, 'stateful': 1}
+    def inst(params, model):  # (trained, tally: read for the tally flavour only)
+        return {'built': True, 'params': params, 'model': model, 'stateful': 1, 'trained': bool(model), 'tally': 0}
 
     after = [([1, ABSENT], [inst([1, 0], []), none, none]),
              ([1, ABSENT], [inst([1, 0], [ev1]), none, none]),
@@ -1053,8 +1140,8 @@ def reference_trace():
     events = []
     for (op, i, j, d, p), (bld, insts) in zip(LEAK_SCRIPT, after):
         events.append({'op': op, 'i': i, 'j': j, 'd': d, 'p': list(p), 'res': 'ok', 'empty': False, 'bld': bld, 'inst': insts,
-                       'out': {'p': [2, 0], 'm': [ev1], 'x': 2} if op == 'apply' else NOOUT})
-    return {'ht': True, 'bld': [1, ABSENT], 'ev': events}
+                       'out': {'p': [2, 0], 'm': [ev1], 'x': 2, 'tally': 0} if op == 'apply' else NOOUT})
+    return {'ht': True, 'bld': [1, ABSENT], 'ev': events, 'codec': 0, 'tally': False}
 
 
 def trace_validation(chk):
@@ -1094,10 +1181,10 @@ def trace_validation(chk):
             ev = tr['ev'][matched]
             what = (f'{name}/{mode}: call {matched + 1} {ev["op"]}(i={ev["i"]}, j={ev["j"]}, d={ev["d"]}, p={kw(ev["p"])}) '
                     + (f'raised {ev["res"]}: {ev.get("what", "")}' if ev['res'] != 'ok' else
-                       f'left builder={ev["bld"]} instances={[(o["params"], o["model"]) for o in ev["inst"]]} out={ev["out"]}, '
+                       f'left builder={ev["bld"]} instances={[(o["params"], (o["trained"], o["tally"]) if tr["tally"] else o["model"]) for o in ev["inst"]]} out={ev["out"]}, '
                        'which no action of Actor.tla allows'))
             chk.fail(what, {'kind': 'trace', 'flavour': name, 'mode': mode,
-                            'trace': {'ht': tr['ht'], 'bld': tr['bld'], 'ev': tr['ev'][:matched + 1]}},
+                            'trace': {'ht': tr['ht'], 'bld': tr['bld'], 'ev': tr['ev'][:matched + 1], 'codec': tr['codec'], 'tally': tr['tally']}},
                      finding=known_finding(FLAVOURS[name], mode, None, matched, ev['op']))
         else:
             chk.validated()
@@ -1128,13 +1215,13 @@ def replay(chk, path):
             subprocess.run([sys.executable, '-W', 'ignore', '-m', 'harness.drivers.C13', '--fresh', item], check=True)
             with open(item + '.json') as fh:
                 got = json.load(fh)[0]
-            want = {'inst': beh[1], 'bld': beh[2], 'stateful': flav.stateful}
+            want = {'inst': expected_inst(flav, beh), 'bld': beh[2], 'stateful': flav.stateful}
             fail = None if got == want else {'what': f'fresh interpreter shows {got}'}
         print('now:', fail['what'] if fail else 'conforms')
         return 1 if fail else 0
     trace = rep['trace']
     script = [(e['op'], e['i'], e['j'], e['d'], e['p']) for e in trace['ev']]
-    now = record_trace(flav, rep['mode'], random.Random(0), 0, script=script, p0=trace['bld'])
+    now = record_trace(flav, rep['mode'], random.Random(0), 0, script=script, p0=trace['bld'], codec=trace.get('codec', 0))
     print('calls:', [(e['op'], e['i'], e['j'], e['d'], kw(e['p'])) for e in trace['ev']])
     print('recorded last call:', json.dumps(trace['ev'][-1]))
     print('now               :', json.dumps(now['ev'][-1]))
